@@ -138,13 +138,20 @@ def clean_block(rng, depth=2, lo=1, hi=4):
 CHANS = [1, 2, 3, 10]          # (16 is the marker's channel)
 
 
-def gen_parts(rng, n, events=True, chans=False):
+RAMP_CMDS = ["EP.onTime(0,127,!8)", "M.onTime(0,127,48)", "y7.onTime(100,20,!4)", "M.Frequency(3) M.onTime(10,90,!8)", "PB.onTime(-100,3000,!8)",
+             "p.onTime(0,127,!4)", "EP.T(127,0,30,0,64,!8)"]
+
+
+def gen_parts(rng, n, events=True, chans=False, ramps=False):
     """chans: the track changes its channel between parts (CH(n)), often followed by a setting on the new channel"""
     parts = []
     for _ in range(n):
         k = rng.random()
         if chans and k < 0.25:
             parts.append("CH(%d) " % rng.choice(CHANS) + (rng.choice(CC_CMDS) + " " if rng.random() < 0.6 else ""))
+        elif ramps and k < 0.12:
+            # controller / bend ramps: their events are counted from the ramp's start, wherever that falls
+            parts.append(rng.choice(RAMP_CMDS) + " ")
         elif events and k < 0.30:
             parts.append(rng.choice(EV_CMDS) + " ")
         elif events and k < 0.40:
@@ -283,8 +290,8 @@ def check_shift(ctx, rng, n, origin):
     for _ in range(n):
         tb = rng.choice(TBS + [None, None])
         pre = ("TimeBase(%d) " % tb) if tb else ""
-        P = "".join(gen_parts(rng, rng.randrange(1, 7)))
-        L = rng.choice(RESTS)
+        P = "".join(gen_parts(rng, rng.randrange(1, 7), ramps=True))
+        L = rng.choice(RESTS + ["64", "%3", "%5", "%2"])
         cases.append((pre, P, L, tb or 96))
     check_shift_cases(ctx, cases, origin)
 
